@@ -20,7 +20,7 @@ import (
 func TestC46(t *testing.T) {
 	c := kit.NewCheck(t, "C46", "exploration", "08-wasm part: {store code, remove checksum, migrate contract} x {authority via router, stranger via signed tx, stranger naming the authority}; distinct = (operation, signer class, outcome) cells")
 	defer c.Finish()
-	c.Floor("wasm_attempts", 12)
+	c.Floor("wasm_attempts", 9)
 	w := newWChain(t)
 	r := c.CaseRng(0)
 	auth := w.authority()
